@@ -15,7 +15,7 @@ if ! (cd "$scratch/repo" && patch -p1 -s < "$patch"); then echo "PATCH-FAILED $p
 if ! (cd "$scratch/repo" && go build ./... 2>"$scratch/build.err"); then echo "BUILD-FAILED $patch"; head -5 "$scratch/build.err"; exit 3; fi
 killed=1
 for p in "$@"; do
-  out=$(/verif/bin/vcheck -prop "$p" -repo "$scratch/repo" -verif "$scratch/verif" 2>&1)
+  out=$(${VCHECK:-/verif/bin/vcheck} -prop "$p" -repo "$scratch/repo" -verif "$scratch/verif" 2>&1)
   if echo "$out" | grep -q "^VIOLATION property=$p"; then
     killed=0
     echo "KILLED by $p: $(echo "$out" | grep -E ': (fail|undecided): ' | head -3 | sed "s#$scratch/repo/##g")"
